@@ -89,7 +89,49 @@ fn toy(atomic: bool, plan: &Plan) -> (u64, u64) {
     (out.executions, lost)
 }
 
+/// the same racy increment written against `vatomic` (what tools/rewrite_repo.py re-points library code at):
+/// no explicit scheduling points, the atomic operations themselves must be points
+fn toy_vatomic(plan: &Plan) -> (u64, u64) {
+    use vatomic::{AtomicUsize as VAtomicUsize, Ordering};
+    let mut stats = Stats::default();
+    let mut lost = 0u64;
+    let out = explore(plan, &mut stats, |prefix| {
+        let counter = VAtomicUsize::new(0);
+        let ((), rec) = sched::run_one(&plan.config(), prefix, || {
+            std::thread::scope(|s| {
+                let mut ids = vec![];
+                for _ in 0..2 {
+                    let id = sched::before_spawn();
+                    ids.push(id);
+                    let c = &counter;
+                    s.spawn(move || {
+                        sched::worker_begin(id);
+                        let v = c.load(Ordering::SeqCst);
+                        c.store(v + 1, Ordering::SeqCst);
+                        sched::worker_end(id);
+                    });
+                }
+                for id in ids {
+                    sched::before_join(id);
+                }
+                sched::leave_scope();
+            });
+        });
+        if counter.into_inner() != 2 {
+            lost += 1;
+        }
+        (rec, Next::Continue)
+    });
+    (out.executions, lost)
+}
+
 fn toy_test() -> bool {
+    let (nv, lostv) = toy_vatomic(&Plan::full());
+    println!("selftest vatomic: racy increment on re-pointed atomics, FULL {} schedules / {} lost updates", nv, lostv);
+    if lostv == 0 {
+        println!("MACHINERY-ERROR operations on vatomic atomics are not scheduling points");
+        return false;
+    }
     let (n, lost) = toy(false, &Plan::full());
     let (n1, lost1) = toy(false, &Plan::pb(1));
     let (n0, lost0) = toy(false, &Plan::pb(0));
